@@ -290,7 +290,7 @@ def finish(report: Report, mod) -> int:
     new_sigs = [s for s in by_sig if s not in open_findings]
     known_sigs = [s for s in by_sig if s in open_findings]
 
-    rdir = ROOT / "replays" / pid
+    rdir = Path(os.environ.get("VERIF_REPLAY_DIR", ROOT / "replays")) / pid  # (maintenance tools redirect both directories)
     if rdir.exists():  # replays always describe the latest run only
         for old in rdir.glob("*.json"):
             old.unlink()
@@ -340,8 +340,8 @@ def finish(report: Report, mod) -> int:
         "wall_s": round(wall, 2),
         "violations": len(report.violations),
     }
-    edir = ROOT / "evidence"
-    edir.mkdir(exist_ok=True)
+    edir = Path(os.environ.get("VERIF_EVIDENCE_DIR", ROOT / "evidence"))
+    edir.mkdir(exist_ok=True, parents=True)
     epath = edir / f"{pid}.json"
     epath.write_text(json.dumps(ev, indent=1))
 
